@@ -187,6 +187,7 @@ type wrapP struct {
 	S      string `json:"s_decimal"`
 	Digest string `json:"digest_hex"` // 20 bytes: never truncated on these curves
 	RForm  string `json:"r_form"`     // "x-N" (valid) | "x" (out of range) | "x-N+1" (wrong)
+	Tiny   bool   `json:"tiny_x,omitempty"` // the nonce point's x is T itself (not N+T): r = T, a one-byte INTEGER; with a small s the DER signature is as short as DER allows
 }
 
 func sqrtOnCurve(c elliptic.Curve, x *big.Int) *big.Int {
@@ -200,11 +201,17 @@ func sqrtOnCurve(c elliptic.Curve, x *big.Int) *big.Int {
 }
 
 // wrapPoints returns the first k values t >= 1 such that x = N + t < P is the x-coordinate of a curve point.
-func wrapPoints(c elliptic.Curve, k int) []int {
+func wrapPoints(c elliptic.Curve, k int) []int { return xPoints(c, k, false) }
+
+// xPoints: the first k values t >= 1 such that N+t (or, tiny, t itself) is the x-coordinate of a curve point.
+func xPoints(c elliptic.Curve, k int, tiny bool) []int {
 	var out []int
 	N, P := c.Params().N, c.Params().P
 	for t := 1; len(out) < k && t < 4096; t++ {
 		x := new(big.Int).Add(N, big.NewInt(int64(t)))
+		if tiny {
+			x = big.NewInt(int64(t))
+		}
 		if x.Cmp(P) >= 0 {
 			break
 		}
@@ -219,6 +226,9 @@ func checkWrap(p wrapP) (string, *mc.Viol) {
 	c := curves[p.Curve]
 	N, P := c.Params().N, c.Params().P
 	x := new(big.Int).Add(N, big.NewInt(int64(p.T)))
+	if p.Tiny {
+		x = big.NewInt(int64(p.T))
+	}
 	y := sqrtOnCurve(c, x)
 	if y == nil || x.Cmp(P) >= 0 {
 		return "", &mc.Viol{Sig: "harness: bad case parameters", What: fmt.Sprint(p)}
@@ -258,6 +268,9 @@ func checkWrap(p wrapP) (string, *mc.Viol) {
 	})
 	std = stdecdsa.Verify(&stdecdsa.PublicKey{Curve: c, X: qx, Y: qy}, dg, rr, s)
 	desc := fmt.Sprintf("%s: nonce point x = N+%d (y odd %v), r = %s, s = %s, digest %s, recovered public key (%x, %x)", p.Curve, p.T, p.YOdd, p.RForm, p.S, p.Digest, qx, qy)
+	if p.Tiny {
+		desc = fmt.Sprintf("%s: nonce point x = %d (y odd %v), r = x, s = %s, digest %s, recovered public key (%x, %x)", p.Curve, p.T, p.YOdd, p.S, p.Digest, qx, qy)
+	}
 	if pHere != "" {
 		return "", &mc.Viol{Sig: p.Curve + ": Verify panics where crypto/ecdsa " + acc(std) + "s", What: desc + ": " + pHere}
 	}
@@ -268,7 +281,7 @@ func checkWrap(p wrapP) (string, *mc.Viol) {
 		return "", &mc.Viol{Sig: fmt.Sprintf("%s: Verify %ss what crypto/ecdsa %ss (nonce point with x >= N)", p.Curve, acc(here), acc(std)), What: desc}
 	}
 	if rr.Sign() > 0 && rr.Cmp(N) < 0 {
-		der := cat([]byte{0x30}, encLen(len(encInt(rr))+len(encInt(s)), 0), encInt(rr), encInt(s))
+		der := tlv([]byte{0x30}, cat(tlv([]byte{0x02}, encInt(rr), 0), tlv([]byte{0x02}, encInt(s), 0)), 0)
 		pDER := mc.Catch(func() {
 			hereDER = ecdsa.VerifyASN1(&ecdsa.PublicKey{Curve: c, X: new(big.Int).Set(qx), Y: new(big.Int).Set(qy)}, append([]byte{}, dg...), der)
 		})
@@ -278,6 +291,69 @@ func checkWrap(p wrapP) (string, *mc.Viol) {
 		}
 	}
 	return "wrap: both " + acc(std), nil
+}
+
+// ---- signatures under special public keys ----
+//
+// Public keys with a coordinate that is zero (x = 0 exists on P-256, P-384, P-521) or tiny: valid
+// points whose discrete logarithm nobody knows. A valid (digest, r, s) is made the other way
+// round: R = u1*G + u2*Q, r = x(R) mod N, s = r/u2, e = u1*s, and the digest is e itself.
+
+type skP struct {
+	Curve string `json:"curve"`
+	X     int    `json:"public_key_x"`
+	YOdd  bool   `json:"y_odd"`
+	Idx   int    `json:"index"`
+	Flip  bool   `json:"digest_bit_flipped,omitempty"` // an invalid variant: same (r, s), another digest
+}
+
+func checkSpecialKey(p skP) (string, *mc.Viol) {
+	c := curves[p.Curve]
+	N, P := c.Params().N, c.Params().P
+	qx := big.NewInt(int64(p.X))
+	qy := sqrtOnCurve(c, qx)
+	if qy == nil {
+		return "no such point", nil
+	}
+	if (qy.Bit(0) == 1) != p.YOdd {
+		qy.Sub(P, qy)
+	}
+	u1 := new(big.Int).SetBytes(mc.Fill(0, fmt.Sprintf("c13-sk-u1-%s-%d-%d", p.Curve, p.X, p.Idx), 80))
+	u1.Mod(u1, new(big.Int).Sub(N, one)).Add(u1, one)
+	u2 := new(big.Int).SetBytes(mc.Fill(0, fmt.Sprintf("c13-sk-u2-%s-%d-%d", p.Curve, p.X, p.Idx), 80))
+	u2.Mod(u2, new(big.Int).Sub(N, one)).Add(u2, one)
+	x1, y1 := c.ScalarBaseMult(u1.Bytes())
+	x2, y2 := c.ScalarMult(qx, qy, u2.Bytes())
+	rx, _ := c.Add(x1, y1, x2, y2)
+	r := new(big.Int).Mod(rx, N)
+	if r.Sign() == 0 {
+		return "harness: r = 0", nil
+	}
+	s := new(big.Int).Mul(r, new(big.Int).ModInverse(u2, N))
+	s.Mod(s, N)
+	e := new(big.Int).Mul(u1, s)
+	e.Mod(e, N)
+	ob := orderBytes(c)
+	dg := new(big.Int).Lsh(e, uint(8*ob-N.BitLen())).FillBytes(make([]byte, ob))
+	if p.Flip {
+		dg[ob/2] ^= 0x10
+	}
+	var here bool
+	pn := mc.Catch(func() {
+		here = ecdsa.Verify(&ecdsa.PublicKey{Curve: c, X: new(big.Int).Set(qx), Y: new(big.Int).Set(qy)}, append([]byte{}, dg...), new(big.Int).Set(r), new(big.Int).Set(s))
+	})
+	std := stdecdsa.Verify(&stdecdsa.PublicKey{Curve: c, X: qx, Y: qy}, dg, r, s)
+	desc := fmt.Sprintf("%s: public key (%d, %x), digest %x, r = %s, s = %s", p.Curve, p.X, qy, dg, r, s)
+	if pn != "" {
+		return "", &mc.Viol{Sig: p.Curve + ": Verify panics where crypto/ecdsa " + acc(std) + "s (public key with a special coordinate)", What: desc + ": " + pn}
+	}
+	if !p.Flip && !std {
+		return "harness: crypto/ecdsa rejects the constructed signature", nil
+	}
+	if here != std {
+		return "", &mc.Viol{Sig: fmt.Sprintf("%s: Verify %ss what crypto/ecdsa %ss (public key with a special coordinate)", p.Curve, acc(here), acc(std)), What: desc}
+	}
+	return "special key: both " + acc(std), nil
 }
 
 type nb struct {
@@ -875,6 +951,12 @@ func main() {
 		_, v := checkVerdict(p)
 		return v
 	})
+	r.RegisterReplay("specialkey", func(pj json.RawMessage) *mc.Viol {
+		var p skP
+		json.Unmarshal(pj, &p)
+		_, v := checkSpecialKey(p)
+		return v
+	})
 	r.RegisterReplay("wrap", func(pj json.RawMessage) *mc.Viol {
 		var p wrapP
 		json.Unmarshal(pj, &p)
@@ -912,7 +994,7 @@ func main() {
 	dkinds := mc.Pick(r, []string{"fill", "zero"}, []string{"fill", "zero", "ff"})
 	nsig := mc.Pick(r, 1, 3)
 
-	r.SetRule("(A) curve x key x digest (length x kind) x honest signature x (r,s) in B x B with B the 18-element boundary set around the honest (r*,s*), plus digest variants under (r*,s*); (A2) signatures constructed around nonce points whose affine x lies in [N, P) (r = x-N valid, r = x and r = x-N+1 invalid) under the public key recovered from them; (B) every DER mutation of the honest ASN.1 signature (every prefix, every single bit flip, header byte substitutions, hand-built non-minimal/negative/out-of-range integers, length forms, tags, trailing bytes inside/outside); (C) every producer x blind key x context; (D) every entropy fault script with <=1 deviation at every byte position (and <=2 deviations at edge positions in the thorough tier) x 4 answer kinds, each executed until both MaybeReadByte coin outcomes were seen. Cases are distinct tuples; non-trivial = (A) both r and s inside [1,N-1] so that the verification equation is evaluated, (B) the mutated signature is not the honest one, (C) all, (D) scripts with at least one deviation")
+	r.SetRule("(A) curve x key x digest (length x kind) x honest signature x (r,s) in B x B with B the 18-element boundary set around the honest (r*,s*), plus digest variants under (r*,s*); (A2) signatures constructed around nonce points whose affine x lies in [N, P) (r = x-N valid, r = x and r = x-N+1 invalid) and with a tiny x (shortest possible DER signatures) under the public key recovered from them; (A3) valid and invalid signatures made backwards for public keys with x = 0..5 (no private key known); (B) every DER mutation of the honest ASN.1 signature (every prefix, every single bit flip, header byte substitutions, hand-built non-minimal/negative/out-of-range integers, length forms, tags, trailing bytes inside/outside); (C) every producer x blind key x context; (D) every entropy fault script with <=1 deviation at every byte position (and <=2 deviations at edge positions in the thorough tier) x 4 answer kinds, each executed until both MaybeReadByte coin outcomes were seen. Cases are distinct tuples; non-trivial = (A) both r and s inside [1,N-1] so that the verification equation is evaluated, (B) the mutated signature is not the honest one, (C) all, (D) scripts with at least one deviation")
 	r.Assume("valid public keys only (d*G with d in [1,N-1]); an off-curve key panics inside crypto/elliptic by design and is out of scope",
 		"the reference is crypto/ecdsa (Go 1.23.5) Verify/VerifyASN1/Sign/SignASN1; values come from fixed alphabets of representatives",
 		"entropy scripts: a deviation delivers k < requested bytes with no error (short read) or with io.EOF / io.ErrUnexpectedEOF / a custom error; the MaybeReadByte coin read itself never fails",
@@ -1001,6 +1083,16 @@ func main() {
 				}
 			}
 		}
+		// the shortest signatures DER allows: r and s one-byte integers (nonce point with a tiny x)
+		for _, cn := range curveNames {
+			for _, t := range xPoints(curves[cn], 2, true) {
+				for _, odd := range []bool{false, true} {
+					for _, sv := range []string{"1", "2", "127", "128"} {
+						ws = append(ws, wrapP{Curve: cn, T: t, YOdd: odd, S: sv, Digest: hex.EncodeToString(digestOf(r.Seed, "fill", 20)), RForm: "x-N", Tiny: true})
+					}
+				}
+			}
+		}
 		r.Par(len(ws), func(i int) {
 			out, v := checkWrap(ws[i])
 			if v != nil {
@@ -1013,6 +1105,35 @@ func main() {
 			r.Case(fmt.Sprintf("wrap|%+v", ws[i]), ws[i].RForm != "x", out)
 		})
 		r.Set("nonce_points_with_x_ge_N", len(ws))
+	}
+
+	// ---- part A3: public keys with x = 0, 1, 2, ... ----
+	{
+		var sk []skP
+		for _, cn := range curveNames {
+			for x := 0; x <= 5; x++ {
+				if sqrtOnCurve(curves[cn], big.NewInt(int64(x))) == nil {
+					continue
+				}
+				for _, odd := range []bool{false, true} {
+					for i := 0; i < mc.Pick(r, 2, 6); i++ {
+						sk = append(sk, skP{Curve: cn, X: x, YOdd: odd, Idx: i}, skP{Curve: cn, X: x, YOdd: odd, Idx: i, Flip: true})
+					}
+				}
+			}
+		}
+		r.Par(len(sk), func(i int) {
+			out, v := checkSpecialKey(sk[i])
+			if v != nil {
+				out = v.Sig
+				r.Violation("specialkey", sk[i], v)
+			}
+			if strings.HasPrefix(out, "harness") {
+				r.Note("%s: %+v", out, sk[i])
+			}
+			r.Case(fmt.Sprintf("specialkey|%+v", sk[i]), true, out)
+		})
+		r.Set("special_public_key_cases", len(sk))
 	}
 
 	// ---- part B: DER, split into chunks for load balance ----
